@@ -12,7 +12,7 @@ RULE = ("every GT string over alleles {., 0,1,2,3,7,10} x separators {/,|} x plo
         "1477 strings, plus the whole-field '.'): (a) classification function vs model; (b) each GT in a selected column of a "
         "one-record VCF run through `sfs create -vv` (stdout, exit status, per-sample trace reason) vs the model of the run; "
         "(c) the same GT in an unselected column must give the output of a run without it; (d) the same through BCF "
-        "(noodles writer; strings noodles cannot encode are counted as skipped). non-trivial = GT is not the reference 0/0; two populations with one projected to no individuals (shape 1) x every class triple; diagnostics for records on contigs the header does not declare")
+        "(noodles writer; strings noodles cannot encode are counted as skipped). non-trivial = GT is not the reference 0/0; two populations with one projected to no individuals (shape 1) x every class triple; diagnostics for records on contigs the header does not declare; diagnostics on contigs named chrY, Y, MT, chrM, chrMT")
 
 ALLELES = [".", "0", "1", "2", "3", "7", "10"]
 WIDE = ["256", "257", "65537", "4294967296", "4294967297"]      # indices that wrap to 0 / 1 in u8, u16, u32
@@ -234,7 +234,9 @@ def check(rep, tier, seed):
     djobs, dwant = [], []
     for g in ("0", "1", "0/1/1", "1|1|0"):
         # ... also on contigs the header does not declare (##contig lines are optional in VCF; BCF cannot express this)
-        for (c1, c2, pbad) in (("chr1", "chr2", 7), ("chr2", "chr1", 123456), ("chr1", "chr1", 3), ("scaf_12", "scaf_12", 77), ("chr1", "scaf_9", 12), ("scaf_3", "chr2", 5)):
+        for (c1, c2, pbad) in (("chr1", "chr2", 7), ("chr2", "chr1", 123456), ("chr1", "chr1", 3), ("scaf_12", "scaf_12", 77), ("chr1", "scaf_9", 12), ("scaf_3", "chr2", 5),
+                               # ... and on contigs whose NAME suggests another ploidy (sex chromosomes, mitochondrion): the name decides nothing
+                               ("<sym1>", "<sym1>", 9), ("chr1", "<alt_ctg>", 4), ("chrY", "chrY", 7), ("chrX", "Y", 7), ("MT", "MT", 16000), ("chr1", "chrM", 3), ("chrMT", "chrMT", 1), ("X", "M", 2), ("chrW", "chrZ", 4)):
             recs_d = [["0/1", "0/0"], ["1/1", "0/1"], [g, "0/1"], ["0/0", "0/0"]]
             ctgs, poss = [c1, c1, c2, c2], [5, 9, pbad, pbad + 4]
             v = render_vcf(["s1", "s2"], recs_d, contigs=ctgs, positions=poss)
@@ -242,15 +244,16 @@ def check(rep, tier, seed):
             if bcf_encode_hts(v) is not None:
                 forms_d += [("bcf", bcf_encode_hts(v)), ("bcf-idx-reversed", bcf_encode_hts(v, idx_reversed=True)), ("bcf-v2.1-bgzf", bgzf_compress(bcf_encode_hts(v, minor=1, idx_reversed=True)))]
             for name, data in forms_d:
-                djobs.append((["create"], data)); dwant.append(("'%s:%d'" % (c2, pbad), name, g))
+                # a symbolic contig (<name>, allowed in VCF) may be named with or without its brackets
+                djobs.append((["create"], data)); dwant.append((("'%s:%d'" % (c2, pbad), "'%s:%d'" % (c2.strip("<>"), pbad)), name, g))
                 djobs.append((["create", "-s", "s2", "--strict"], data.replace(b"0/0\t0/0", b"0/0\t./.") if name == "vcf" else data)); dwant.append((None, name, g))
     for job, (want, name, g), (rc, so, se) in zip(djobs, dwant, run_cli_many(djobs)):
         if want is None:
             continue
-        rep.count("diagnostic-names-site", "%s GT=%s at %s" % (name, g, want), True)
-        if rc == 0 or so != b"" or want.encode() not in se or is_panic(rc, se):
-            rep.fail(kind="property-oracle", cls="classify-cli:diagnostic:" + name, case="GT %s at %s as %s" % (g, want, name), argv=["sfs", "create"],
-                     stdin_hex=job[1].hex()[:20000], observed={"rc": rc, "stderr": se.decode(errors="replace")[-300:]}, expected="failure naming %s" % want,
+        rep.count("diagnostic-names-site", "%s GT=%s at %s" % (name, g, want[0]), True)
+        if rc == 0 or so != b"" or not any(w_.encode() in se for w_ in want) or is_panic(rc, se):
+            rep.fail(kind="property-oracle", cls="classify-cli:diagnostic:" + name, case="GT %s at %s as %s" % (g, want[0], name), argv=["sfs", "create"],
+                     stdin_hex=job[1].hex()[:20000], observed={"rc": rc, "stderr": se.decode(errors="replace")[-300:]}, expected="failure naming %s" % want[0],
                      detail="a non-diploid genotype in a selected sample must fail the run with an error naming the contig and position of the record")
     rep.assumptions += ["a whole GT field '.' is the VCF missing value (decoded as None by noodles): classified Missing",
                         "noodles decodes the GT text/BCF encoding; the classification from decoded alleles onward is modelled"]
